@@ -2665,3 +2665,53 @@ def last_reference_removal_waits_for_readers(ctx, p):
                    'the write lock of the tree reader that the removal of a last reference takes does not depend on the child list of the root (the lock makes the worker wait for a reader of the ROOT; a childless tree has a reader too)',
                    not shape, 'the lock is taken only depending on the child list (tested at %s)' % shape, b.loc(lk))
     ctx.ob(p + '0 removal-lock-anchor', 'anchor', wpl.path, 'the planning of a tree removal write-locks the tree reader somewhere', n >= 1, 'sites %d' % n)
+
+
+def client_callbacks_run_without_column_locks(ctx, p):
+    """F81 (C15). The iteration entry points hand every entry to a closure of the CLIENT. While it runs, the column's `tables`
+    read lock is still held (HashColumn::iter_values / iter_index_internal keep it for the whole walk). A callback that calls back
+    into the database (`Db::get` of the same column) asks for that lock again; if the log worker has meanwhile asked for the write
+    side (trigger_reindex: "Index chunk full"), parking_lot admits no new reader, and callback, iteration and log worker wait for
+    each other for ever: accepted commits are never logged. Decided here: on the way from a public entry point to the invocation
+    of a client callback no guard of a lock that a pipeline stage takes in write mode is live."""
+    F = ctx.F
+    LOCKS = ('.HashColumn.tables', '.HashColumn.reindex', '.DbInner.commit_overlay', '.Log.overlays', '.BTreeTable.tables')
+    roots = [(pth, b) for pth, b in sorted(F.bodies.items()) if pth.startswith('db::Db::') and '{closure' not in pth and str(b.d.get('vis')) == 'Public'
+             and any(str(b.locals[l]).startswith('impl FnMut') or str(b.locals[l]).startswith('impl Fn') for l in range(1, b.argc + 1))]
+    found = {}
+    seen = set()
+
+    def walk(b, params, chain, depth=6):
+        if (b.path, tuple(params)) in seen or depth == 0:
+            return
+        seen.add((b.path, tuple(params)))
+        taint = lib.forward_taint(b, params)
+        for bi, t in b.calls():
+            if bi not in b.normal_blocks():
+                continue
+            hit = [i for i, a in enumerate(t['a']) if op_place(a) is not None and op_place(a)[0] in taint]
+            if not hit:
+                continue
+            live = set(f for (l, ty, cls) in lib.guards_live_at(b, bi) for f in cls if f in LOCKS)
+            is_call = call_matches(t, ['re:ops::FnMut::call_mut$', 're:ops::Fn::call$', 're:ops::FnOnce::call_once$']) and hit[0] == 0
+            callee = [n for n in sorted(set(call_names(t))) if n in F.bodies and n != b.path]
+            if live and (is_call or callee):
+                for f in sorted(live):
+                    # (the finding is the pair entry point / lock: where on the way the guard is taken is detail)
+                    found.setdefault(((chain + [b.path])[0], f), (b.path, b.loc(bi)))
+            for n in callee[:1]:
+                walk(F.bodies[n], [i + 1 for i in hit], chain + [b.path], depth - 1)
+            # a closure that captures the callback and is handed on: its body invokes the callback under whatever the callee holds
+            for c in lib.closure_operands(b, t):
+                cb = F.bodies.get(c)
+                if cb is not None and callee:
+                    pass
+    for pth, b in roots:
+        walk(b, [l for l in range(1, b.argc + 1) if str(b.locals[l]).startswith('impl Fn')], [])
+    ctx.ob(p + '0 callback-entry-points', 'anchor', 'db::Db', 'the public entry points that take a client callback were found and followed to an invocation', len(roots) >= 1 and len(seen) >= 4, 'entry points %s, bodies visited %d' % ([r[0] for r in roots], len(seen)))
+    if not found:
+        ctx.ob(p + 'a client-callback-runs-without-column-locks', 'K5-held-at', 'db::Db', 'no lock that a pipeline stage takes in write mode is held while a client callback runs (or is handed on towards its invocation)', True, '')
+    for (fn, f), (where, loc) in sorted(found.items()):
+        ctx.ob(p + 'a client-callback-runs-without-column-locks %s %s' % (fn, f), 'K5-held-at', fn,
+               'no lock that a pipeline stage takes in write mode is held while a client callback runs (or is handed on towards its invocation): a callback that reads the database re-acquires it behind a waiting writer',
+               False, 'a guard of %s is live in %s where the client callback is invoked or handed on' % (f, where), loc)
